@@ -28,7 +28,10 @@ crpix, crpix_frac, crpix_exact (bool: fraction 0 or .5, i.e. all CRPIX arithmeti
 * ``rt/multi_tan/astrometry``         + ``field, observed, expected``
 * ``rt/multi_tan/no_lock_files``      + ``locks``
 
-Bounds: quick: 26 scenarios (18 random + 2 piece sets x 4 orders), canvases up to ~700 px (L <= 2),
+Bounds: quick: 26 general scenarios (18 random + 2 piece sets x 4 orders) + 18 "covered tile" scenarios
+(``covered_tile_set``: piece A fully covers one 256x256 tile and is undefined along a border and in a hole
+inside that tile, pieces B and C supply defined pixels there; all 6 input orders; set 1 with 1 and 2 workers,
+set 2 alternating; thorough: 5 sets x 6 orders x 3 worker counts), canvases up to ~700 px (L <= 2),
 1-4 pieces (random rectangles incl. 1-3 px slivers, regular grids with 0/3/17 px overlap, NaN
 borders and holes), workers {1,2,3}, fits and npy pyramids, f32/f64 data, both parities (and mixed,
 CD-style headers), rotations {0,30,-77,90,180,12.5} deg, CRPIX integer / half-integer / .25 / .3 /
@@ -427,6 +430,87 @@ def build(ctx):
     return out
 
 
+def study_frame(Hc, Wc):
+    """(L, P, gx0, gy0): the canvas sits at (gx0, gy0) of the 256*2^L square (C08 statement)."""
+    P, L = 256, 0
+    while P < max(Wc, Hc):
+        P *= 2
+        L += 1
+    return L, P, (P - Wc) // 2, (P - Hc) // 2
+
+
+def covered_tile_set(rng, H, W, tx, ty, parity_mode, header_style, theta, frac, pio_format):
+    """Three overlapping pieces whose union box is the H x W canvas:
+    A  covers tile (tx, ty) of the canvas' study tiling COMPLETELY (plus a margin of 0..30 px) and has a
+       NaN border wider than the margin, i.e. undefined pixels INSIDE the fully covered tile, and a NaN hole there;
+    B  (top strip down to the middle of that tile) and C (lower right part) supply defined pixels under parts of
+       A's border / hole; the lower left part of the border stays undefined.
+    Whatever the order, A's undefined pixels must not replace B's / C's defined ones."""
+    L, P, gx0, gy0 = study_frame(H, W)
+    x0, y0 = 256 * tx - gx0, 256 * ty - gy0            # the tile in canvas coordinates
+    assert 0 <= x0 and x0 + 256 <= W and 0 <= y0 and y0 + 256 <= H, "tile must lie inside the canvas"
+    ml, mr = min(x0, rng.randint(0, 30)), min(W - x0 - 256, rng.randint(0, 30))
+    mt, mb = min(y0, rng.randint(0, 30)), min(H - y0 - 256, rng.randint(0, 30))
+    A = [y0 - mt, x0 - ml, 256 + mt + mb, 256 + ml + mr]
+    bA = max(ml, mr, mt, mb) + rng.randint(5, 40)
+    holeA = [mt + 100 + rng.randint(0, 40), ml + 90 + rng.randint(0, 40), rng.randint(10, 50), rng.randint(10, 50)]
+    B = [0, 0, y0 + 128, W]
+    C = [y0 + 100, x0 + 60, H - (y0 + 100), W - (x0 + 60)]
+    pieces = [A, B, C]
+    borders = [bA, 0, rng.choice([0, 3])]
+    holes = [holeA, None, None]
+    return make_cfg(rng, H, W, pieces, borders, holes, parity_mode, header_style, theta, frac, 1, pio_format, "f32", order=[0, 1, 2])
+
+
+def covered_tile_nan_pixels(cfg):
+    """Number of pixels that are undefined in a piece which fully covers their 256x256 tile and defined in the
+    mosaic (supplied by another piece) -- the feature the 'covered tile' scenarios are built for (oracle side only)."""
+    pcs = cfg["pieces"]
+    ux0, uy0 = min(p[1] for p in pcs), min(p[0] for p in pcs)
+    Wc, Hc = max(p[1] + p[3] for p in pcs) - ux0, max(p[0] + p[2] for p in pcs) - uy0
+    L, P, gx0, gy0 = study_frame(Hc, Wc)
+    arrs = piece_arrays(cfg)
+    defined = np.zeros((Hc, Wc), dtype=bool)
+    for (y0, x0, h, w), a in zip(pcs, arrs):
+        defined[y0 - uy0:y0 - uy0 + h, x0 - ux0:x0 - ux0 + w] |= ~np.isnan(a)
+    n = 0
+    for (y0, x0, h, w), a in zip(pcs, arrs):
+        py, px = y0 - uy0 + gy0, x0 - ux0 + gx0          # piece in the square
+        for ty in range(-(-py // 256), (py + h) // 256):
+            for tx in range(-(-px // 256), (px + w) // 256):
+                sy, sx = 256 * ty - py, 256 * tx - px    # tile inside the piece
+                if sy < 0 or sx < 0 or sy + 256 > h or sx + 256 > w:
+                    continue
+                und = np.isnan(a[sy:sy + 256, sx:sx + 256])
+                n += int((und & defined[sy + py - gy0:sy + py - gy0 + 256, sx + px - gx0:sx + px - gx0 + 256]).sum())
+    return n
+
+
+def build_covered(ctx):
+    """Scenarios 'one piece fully covers a tile but is undefined along its border inside that tile': all input orders."""
+    rng = ctx.rng
+    out = []
+    if not ctx.thorough:
+        sets = [(covered_tile_set(rng, 512, 512, 0, 0, "td", "cdelt", 0.0, 0.5, "fits"), [1, 2]),          # canvas = 2 x 2 tiles exactly
+                (covered_tile_set(rng, 520, 600, 1, 1, "bu", "cd", 12.5, 0.0, "fits"), [2, 1])]            # L = 2, tile (1,1) inside the canvas
+        both = [True, False]
+    else:
+        sets = [(covered_tile_set(rng, 512, 512, 0, 0, "td", "cdelt", 0.0, 0.5, "fits"), [1, 2, 3]),
+                (covered_tile_set(rng, 520, 600, 1, 1, "bu", "cd", 12.5, 0.0, "fits"), [1, 2, 3]),
+                (covered_tile_set(rng, 512, 512, 1, 1, "mixed", "cd", 0.0, 0.5, "npy"), [1, 2, 5]),
+                (covered_tile_set(rng, rng.randint(530, 700), rng.randint(530, 700), 2, 1, "td", "cd", -77.0, 0.25, "fits"), [1, 2, 3]),
+                (covered_tile_set(rng, rng.randint(520, 700), rng.randint(770, 1000), 2, 1, "bu", "cdelt", 0.0, 0.0, "fits"), [1, 2, 3])]
+        both = [True] * len(sets)
+    for (base, pars), every in zip(sets, both):
+        for pi, perm in enumerate(itertools.permutations(range(3))):
+            for par in (pars if every else [pars[pi % len(pars)]]):
+                c = dict(base)
+                c["order"] = list(perm)
+                c["parallel"] = par
+                out.append(c)
+    return out, len(sets)
+
+
 # ---- driver ---------------------------------------------------------------------------------------
 
 def _timeout(cfg):
@@ -464,10 +548,23 @@ def judge(cfg, status, res, t):
 def run(ctx):
     import shutil
     scs = build(ctx)
-    ctx.bound("%d scenarios; canvases up to %d px; 1..%d pieces (random rectangles incl. 1-3 px slivers, regular grids with "
+    n_general = len(scs)
+    cov, n_cov_sets = build_covered(ctx)
+    scs += cov
+    feature = [covered_tile_nan_pixels(c) for c in cov]
+    if min(feature) == 0:
+        raise RuntimeError("checker error in rt/c09: a 'covered tile' scenario lacks undefined pixels of a covering piece over defined ones")
+    ctx.monitor("covered_tile_undefined_over_defined_pixels", sum(feature))
+    ctx.bound("%d further scenarios 'a piece fully covers a 256x256 tile, is undefined along a border (and in a hole) INSIDE that tile, "
+              "and another piece supplies defined pixels there' (%d..%d such pixels per scenario): %d three-piece sets (canvas exactly "
+              "2x2 tiles; tile (1,1) of a level-2 tiling%s), ALL 6 input orders, workers %s"
+              % (len(cov), min(feature), max(feature), n_cov_sets,
+                 "; mixed parity npy; rotated; wide level-2" if ctx.thorough else "",
+                 "{1,2} (both for the first set, alternating for the second)" if not ctx.thorough else "{1,2,3} / {1,2,5}"))
+    ctx.bound("%d general scenarios; canvases up to %d px; 1..%d pieces (random rectangles incl. 1-3 px slivers, regular grids with "
               "0/3/17 px overlap), NaN borders and holes; parities td / bu / mixed; header styles CDELT(+PC) and CD; rotations "
               "{0,30,-77,90,180,12.5} deg; CRPIX integer, half-integer and .25/.3/.37 fractions; workers %s; fits and npy "
-              "pyramids; f32 and f64 data" % (len(scs), 700 if not ctx.thorough else 1400, 4 if not ctx.thorough else 6,
+              "pyramids; f32 and f64 data" % (n_general, 700 if not ctx.thorough else 1400, 4 if not ctx.thorough else 6,
                                               [1, 2, 3] if not ctx.thorough else [1, 2, 3, 5]))
     ctx.bound("order independence: %s of piece sets with heavy overlaps" % ("4 orders of 2 three-piece sets" if not ctx.thorough
                                                                              else "all 24 orders of 3 four-piece sets"))
